@@ -64,4 +64,12 @@ theorem stream_returns :
       ("Stream.readKind", 6), ("Stream.readUint", 5), ("Stream.readFull", 2), ("Stream.readByte", 2),
       ("Stream.willRead", 3)] := by decide
 
+/-- The type cache breaks recursion with a placeholder entry (`typeCache[key] = new(typeinfo)`) that is
+    later FILLED IN PLACE (`*typeCache[key] = *info`): coders of element/pointer types generated while a
+    self-referential type is under construction keep a pointer to that very entry. Replacing the entry
+    instead (`typeCache[key] = info`) leaves them with nil functions — this obligation pins the
+    in-place form; the behaviour is exercised on the recursive fixture types (`Props/C08Rec.lean`). -/
+theorem typecache_fills_placeholder_in_place :
+    cacheAssigns = [("cachedTypeInfo1", "v[v] = f"), ("cachedTypeInfo1", "*v[v] = *v")] := by decide
+
 end Rangers.Props.C08
